@@ -1,6 +1,6 @@
 """C04 (garbage collection) and C09 (rotational order of halffaces around an edge): pairing, trigger and shape rules"""
 from .extract import AnalysisBroken
-from .facts import as_assign, estr, unwrap, walk
+from .facts import as_assign, estr, need_names, unwrap, walk
 from .lockstep import Ctx, delete_cores, elem_effects, find_gc, gc_rules, owner_rule, compute_rule, km_cache
 from .rule_g import iter_sites, single_assignment_init
 from .rule_l import atoms_at, fmt_atoms
@@ -97,6 +97,7 @@ def run_c04(ck, fb, fbd):
     if not ed:
         raise AnalysisBroken("anchor vanished: TopologyKernel::enable_deferred_deletion")
     ed = ed[0]
+    need_names(ed, ["_enable"], fb, "C04.leave")
     calls = [(b, i) for b, i, x in ed.nodes(("call",)) if x.get("u") == gc.id]
     writes = [pos for pos, node, kind, arg in mode_changes(ed) if kind == "write"]
     ok = False
@@ -109,6 +110,7 @@ def run_c04(ck, fb, fbd):
     sg = [f for f in fb.fns.values() if f.cls == "OpenVolumeMesh::StatusAttrib" and f.name == "garbage_collection" and f.has_cfg and len(f.d["params"]) == 5]
     ck.floor("status_gc_instantiations", len(sg), 1)
     for f in sg[:3]:
+        need_names(f, ["nv", "nhe", "nhf", "nc", "_preserveManifoldness", "new_vh", "new_heh", "new_hfh", "new_ch"], fb, "C04.status")
         dels = [(b, i, x) for b, i, x in f.nodes(("call",)) if x.get("pn", "") in (TK + "::delete_edge", TK + "::delete_face", TK + "::delete_cell", TK + "::delete_vertex") and b in f.reach()]
         bu = [(b, i) for b, i, x in f.nodes(("call",)) if x.get("pn", "").endswith("::enable_bottom_up_incidences")]
         cg = [(b, i) for b, i, x in f.nodes(("call",)) if x.get("u") == gc.id]
@@ -192,6 +194,7 @@ def run_c09(ck, fb, fbd):
                 ok = bool(un) and all(not g.dominates((b, i), e["pos"]) and (e["pos"][0] != b or e["pos"][1] < i) for e in un)
                 (ck.ok if ok else lambda r, w, t: ck.violate(r, w, t, "C09.trigger:%s:after" % name))("C09.trigger", g.loc(n), "%s reorders only after the victim has been removed from %s" % (name, cache))
     # walk
+    need_names(ro, ["new_halffaces", "incident_hfs", "cur_hf", "cur_heh", "heh"], fb, "C09.walk")
     loops = ro.loops()
     if len(loops) < 2:
         raise AnalysisBroken("C09: reorder_incident_halffaces: expected two walks (loops), found %d" % len(loops))
@@ -237,6 +240,7 @@ def run_c09(ck, fb, fbd):
     if not ad:
         raise AnalysisBroken("anchor vanished: TopologyKernel::adjacent_halfface_in_cell")
     ad = ad[0]
+    need_names(ad, ["hfh", "idx", "heh", "_halfFaceHandle", "_halfEdgeHandle", "hasHalfedge", "hasOppHalfedge"], fb, "C09.adjacent")
     cand = []
     for b, i, x in ad.tops():
         a = as_assign(x)
